@@ -29,8 +29,11 @@ theorem upd_comm (idx : Nat → Nat) {a b : Nat} (h : a ≠ b) (j k : Nat) :
     upd (upd idx a j) b k = upd (upd idx b k) a j := by
   funext c
   unfold upd
-  by_cases h1 : c = b <;> by_cases h2 : c = a <;> simp [h1, h2]
+  by_cases h1 : c = b <;> by_cases h2 : c = a
   · subst h1; subst h2; exact absurd rfl h
+  · subst h1; simp [h2]
+  · subst h2; simp [h1]
+  · simp [h1, h2]
 
 /-- the defining formula of one pass with `Finset` sums -/
 theorem smooth1_eq (s : Smoother K) (f : Nat → K) (i : Nat) :
